@@ -4,7 +4,8 @@ LEAN_MODULES = ["CifModel.Props.C18", "CifModel.Props.C18Text", "CifModel.Props.
 REQUIRED = ["CifModel.C18_stats_exact", "CifModel.C18_maxRun_spec", "CifModel.C18_delim_permitted", "CifModel.C18_delim_admissible",
             "CifModel.C18_prefers_simple", "CifModel.C18_reserved_iff", "CifModel.C18_set_unquoted_iff", "CifModel.C18_try_quoted",
             "CifModel.C18_delim_lexically_admissible", "CifModel.C18_delim_reads_back", "CifModel.C18_delim_reads_back_text",
-            "CifModel.C18_set_quoted_all_kinds", "CifModel.C18_fits_limit", "CifModel.C18_delim_reads_back_value"]
+            "CifModel.C18_set_quoted_all_kinds", "CifModel.C18_fits_limit", "CifModel.C18_delim_reads_back_value",
+            "CifModel.C18_text_field_reads_back_all"]
 GEN = ["ErrCodes", "NamesConsts"]
 FAMILIES = ["analyze", "reserved", "setq"]
 TRUSTED_BASE = [
